@@ -372,9 +372,9 @@ func c02(args []string) error {
 				w.DefQC("QG", hx.AbsQC{Hash: "genesis", View: 0, BlockView: 0, Known: true, Sig: nilSig})
 				w.DefQC("Q1", hx.AbsQC{Hash: "B1", View: 1, BlockView: 1, Known: true, Sig: w.GoodSig(seqInts(1, q), hx.BlockMsg("B1"))})
 				w.DefQC("Q2", hx.AbsQC{Hash: "B2", View: 2, BlockView: 2, Known: true, Sig: w.GoodSig(seqInts(n-q+1, n), hx.BlockMsg("B2"))})
-				w.DefQC("QR", hx.AbsQC{Hash: "B1", View: 9, BlockView: 1, Known: true, Sig: w.GoodSig(seqInts(1, q), hx.BlockMsg("B1"))}) // relabelled
+				w.DefQC("QR", hx.AbsQC{Hash: "B1", View: 9, BlockView: 1, Known: true, Sig: w.GoodSig(seqInts(1, q), hx.BlockMsg("B1"))})           // relabelled
 				w.DefQC("QS", hx.AbsQC{Hash: "B2", View: 2, BlockView: 2, Known: true, Sig: w.GoodSig(seqInts(1, max(q-1, 0)), hx.BlockMsg("B2"))}) // sub-quorum
-				w.DefQC("QU", hx.AbsQC{Hash: "B3", View: 3, BlockView: -1, Known: false, Sig: w.GoodSig(seqInts(1, q), hx.BlockMsg("B3"))})   // unknown block
+				w.DefQC("QU", hx.AbsQC{Hash: "B3", View: 3, BlockView: -1, Known: false, Sig: w.GoodSig(seqInts(1, q), hx.BlockMsg("B3"))})         // unknown block
 				names := []string{"QG", "Q1", "Q2", "QR", "QS", "QU"}
 				emitAgg := func(mut string, honest bool, a hx.AbsAgg) {
 					agg := w.MkAgg(a)
